@@ -38,7 +38,7 @@ def strategy(tier, phase):
 
     edit = st.tuples(st.integers(0, 13), st.integers(0, 60), st.integers(0, 60), st.integers(0, 60)).map(list)
     return st.fixed_dictionaries({"gen": st.sampled_from([2, 3, 4, 4]), "tape": rmodel.tape_strategy(), "edits": st.lists(edit, max_size=4), "pass": st.integers(0, len(c05.PASSES) - 1),
-                                  "param": st.integers(0, 7), "fault": st.sampled_from([0, 0, 0, 1, 2, 3]), "functional": st.booleans(), "wrap": st.sampled_from([0, 0, 1, 2, 3]),
+                                  "param": st.integers(0, 7), "fault": st.sampled_from([0, 0, 0, 1, 2, 3, 4]), "gattr": st.sampled_from([False, False, False, True]), "functional": st.booleans(), "wrap": st.sampled_from([0, 0, 1, 2, 3]),
                                   # history of the pass OBJECT: it may have processed another model before (state left over from a previous call)
                                   "prelude": st.one_of(st.just([]), st.just([]), rmodel.tape_strategy(100)),
                                   "prelude_edit": st.one_of(st.just([]), st.just([]), st.lists(st.tuples(st.one_of(st.integers(0, 12), st.integers(0, 12), st.integers(0, 80)), st.integers(0, 2**16)).map(list), min_size=1, max_size=3))})
@@ -107,7 +107,7 @@ def execute(case):
 
     try:
         proto, features = rmodel.build(case["tape"], case.get("gen", 1))
-        pidx, param, fault = case["pass"], case["param"], case["fault"] % 4
+        pidx, param, fault = case["pass"], case["param"], case["fault"] % 5
         edits = case["edits"]
     except (KeyError, TypeError):
         return dict(failures=[], nontrivial=False, classes=["malformed"])
@@ -170,9 +170,21 @@ def execute(case):
             lz = ir.Value(name="c14_lazy", const_value=ir.LazyTensor(thunk, ir.DataType.FLOAT, ir.Shape([2]), name="c14_lazy"))
             model.graph.initializers.add(lz)
             classes.append("fault_lazy_serialization")
+        if fault == 4:
+            # a tensor that cannot even be asked for its size (the failure strikes while the call is being prepared,
+            # before anything is serialized), followed by further initializers
+            class SizelessTensor(ir.Tensor):
+                @property
+                def nbytes(self):
+                    raise Boom("size of this tensor is not available")
+
+            model.graph.initializers.add(ir.Value(name="c14_sizeless", const_value=SizelessTensor(np.arange(5, dtype=np.float32), name="c14_sizeless")))
+            model.graph.initializers.add(ir.Value(name="c14_after_a", const_value=ir.Tensor(np.arange(300, dtype=np.float32), name="c14_after_a")))
+            model.graph.initializers.add(ir.Value(name="c14_after_b", const_value=ir.Tensor(np.arange(2, dtype=np.int64), name="c14_after_b")))
+            classes.append("fault_tensor_size_query")
         u = U.Universe.from_model(model)
         snap_before = c03._mask(snapshot.take(u, with_ids=False))
-        bytes_before = _ser(model) if fault != 1 else None
+        bytes_before = _ser(model) if fault not in (1, 4) else None
         order_before = list(model.graph.initializers.keys())
         inputs_before = [id(v) for v in model.graph.inputs]
         saved = (onnx.checker.check_model, onnx.shape_inference.infer_shapes)
@@ -199,7 +211,7 @@ def execute(case):
                 r = None
         finally:
             onnx.checker.check_model, onnx.shape_inference.infer_shapes = saved
-        must_be_unchanged = name == "CheckerPass" or fault in (1, 3) or (r is not None and not r.modified)
+        must_be_unchanged = name == "CheckerPass" or fault in (1, 3, 4) or (r is not None and not r.modified)
         if must_be_unchanged:
             u.sweep()
             snap_after = c03._mask(snapshot.take(u, with_ids=False))
@@ -220,6 +232,25 @@ def execute(case):
         nontrivial = fault != 0 or (r is not None and r.modified)
         return dict(failures=_dd(fails), nontrivial=nontrivial, classes=classes)
     # ---- all other passes ---------------------------------------------------------------------------------
+    if case.get("gattr"):
+        # every If becomes a custom-domain node carrying its branches in ONE attribute of type GRAPHS (no standard operator
+        # has such an attribute; nothing is executed here, the contract clauses are about structure and flags)
+        from props import c18
+
+        hit = False
+        for g_ in _all_graphs(model):
+            for n_ in list(g_):
+                if n_.op_type == "If" and "then_branch" in n_.attributes and "else_branch" in n_.attributes:
+                    tb = n_.attributes.pop("then_branch").as_graph()
+                    eb = n_.attributes.pop("else_branch").as_graph()
+                    n_.attributes.add(ir.Attr("branches", ir.AttributeType.GRAPHS, [tb, eb] if param % 2 else [eb, tb]))
+                    n_.op_type, n_.domain = "MultiBranch", "custom.ops"
+                    hit = True
+        if hit:
+            model.graph.opset_imports.setdefault("custom.ops", 1)
+            for f_ in model.functions.values():
+                f_.opset_imports.setdefault("custom.ops", 1)
+            classes.append("graphs_attribute")
     p = c05.make_pass(pidx, param)
     prelude_tape = case.get("prelude") or []
     if not prelude_tape and case.get("prelude_edit"):
